@@ -1142,12 +1142,14 @@ def judge_linear_grid(spec, rec):
 SHAPE_TARGETS = {
     'vec2': ([2], '[1,2]'), 'vec3': ([3], '[1,2,3]'), 'mat22': ([2, 2], '[[2,0],[0,3]]'),
     'mat23': ([2, 3], '[[1,2,3],[4,5,6]]'), 'scalar': ([], '7'),
+    # matrices with an axis of length one are matrices, not vectors (a seeded change squeezed the expected shape)
+    'row13': ([1, 3], '[[1,2,3]]'), 'col31': ([3, 1], '[[1],[2],[3]]'),
 }
 SHAPE_STUDENTS = {
     'scalar': ([], '7'), 'vec2': ([2], '[1,2]'), 'vec3': ([3], '[1,2,3]'), 'vec4': ([4], '[1,2,3,4]'),
     'row13': ([1, 3], '[[1,2,3]]'), 'col21': ([2, 1], '[[1],[2]]'), 'mat22': ([2, 2], '[[2,0],[0,3]]'),
     'mat23': ([2, 3], '[[1,2,3],[4,5,6]]'), 'mat32': ([3, 2], '[[1,4],[2,5],[3,6]]'),
-    'tensor': ([1, 2, 2], '[[[2,0],[0,3]]]'),
+    'tensor': ([1, 2, 2], '[[[2,0],[0,3]]]'), 'col31': ([3, 1], '[[1],[2],[3]]'),
 }
 SHAPE_NAMES = {0: 'scalar', 1: 'vector', 2: 'matrix', 3: 'tensor'}
 # comparer -> the targets it is used with: (answers builder, expected student shape, a right-shape member)
